@@ -52,6 +52,8 @@ func init() {
 		Title: "No server input can crash the client",
 		Funcs: append(append([]string{}, parserFuncs...),
 			`^\(\*?asetypes\.DataType\)\.(GoValue|goValue|ByteSize|LengthBytes)$`,
+			`^\(\*tds\.Channel\)\.(WritePacket|tryParsePackage|handleSpecialPackage|callEnvChangeHooks|callEEDHooks)$`,
+			`^\(\*tds\.PacketHeader\)\.(ReadFrom|Write)$`, `^\(\*tds\.Packet\)\.ReadFrom$`,
 		),
 		Exclude: []string{`tds\.(Conn)\)`},
 		Claim: func(o *Obligation) bool {
@@ -195,6 +197,41 @@ func init() {
 		Notes: []string{
 			"proved (unbounded): every packet written by sendPacket carries the channel's message type and id, a header length equal to 8 + len(body), the end-of-message flag exactly when the body is shorter than the current body size, and reaches the transport as header (big-endian length) followed by the body with earlier bytes of the wire untouched; a successful flush (sendPackets(false), SendRemainingPackets, SendPackage) leaves no message open on the wire (the last packet written carried the end-of-message flag), for every total length including exact multiples of the body size; every Package/FieldFmt/FieldData writer only appends to the channel's output stream",
 			"not mechanised: the byte-level equality between the concatenated packet bodies on the wire and the queue's output stream across several sendPackets calls, and the queue invariant at the deferred DiscardUntilCurrentPosition call in sendPackets (unclaimed obligations)",
+		},
+	}
+	readerFuncs := []string{
+		`^\(\*tds\.PacketHeader\)\.(ReadFrom|Write)$`, `^\(\*tds\.Packet\)\.ReadFrom$`,
+		`^\(\*tds\.Channel\)\.(WritePacket|tryParsePackage|handleSpecialPackage|callEnvChangeHooks|callEEDHooks)$`,
+	}
+	properties["C02"] = &Property{
+		ID:    "C02",
+		Title: "Received package stream does not depend on fragmentation",
+		Pkgs:  []string{"./tds"},
+		Funcs: readerFuncs,
+		Assumptions: []string{
+			"io.Reader / io.ReadFull contracts of the transport (/verif/specs/io.spec): a Read returns any 0 <= n <= len(p) next bytes of the peer's stream, possibly together with an error",
+			"the PacketQueue read view (C15) and the parser clause (C07: a dry stream is reported as ErrNotEnoughBytes) are verified under those properties and used here through their contracts",
+			"the reader goroutine Conn.ReadFrom (channel lookup in a map of pointers, error channel) is not under contract: maps of pointers and goroutines are outside the generator's subset",
+			"hooks registered by the client do not reach unexported library state",
+		},
+		Notes: []string{
+			"proved (unbounded, every partition of the byte stream into Read results): PacketHeader.ReadFrom consumes exactly 8 bytes and decodes them big-endian, failing only if the transport failed; Packet.ReadFrom consumes exactly Header.Length bytes, its body is the next Length-8 bytes of the stream in order, whatever the sizes of the individual reads; WritePacket hands a complete packet to the queue and restores a valid queue position after a failed parse attempt (preconditions of SetPosition / AddPacket)",
+			"not mechanised: equality of the delivered package sequences for two different packetisations of the same response (a relational statement over two runs); it follows from the three function-level statements above by an argument that is not machine-checked",
+		},
+	}
+	properties["C14"] = &Property{
+		ID:    "C14",
+		Title: "Transport failure yields a clean prefix and then an error",
+		Pkgs:  []string{"./tds"},
+		Funcs: readerFuncs[:2],
+		Assumptions: []string{
+			"io.Reader / io.ReadFull / context contracts (/verif/specs/io.spec, context.spec); a context error is never io.EOF",
+			"time bounds (the read timeout) are not modelled: the generator has no notion of time",
+			"the reader goroutine Conn.ReadFrom is not under contract (maps of pointers, goroutines); that it dispatches a packet only when Packet.ReadFrom returned nil or an error matching io.EOF is read off its source, not proved",
+		},
+		Notes: []string{
+			"proved (unbounded, every failure offset): Packet.ReadFrom returns nil or an error matching io.EOF only with a complete packet (total == Header.Length, body equal to the stream bytes); every other outcome is an error, raised only if the transport failed or the context is done; PacketHeader.ReadFrom never reports io.EOF for a partial header; a parser that runs out of bytes reports ErrNotEnoughBytes (C07) so no package is assembled from an incomplete packet sequence",
+			"not mechanised: the bound on blocking time and the absence of a spurious final DONE after a failure (whole-history statements over the reader goroutine)",
 		},
 	}
 }
